@@ -1325,7 +1325,7 @@ func blockPos(c *load.Ctx, b *ssa.BasicBlock) string {
 
 func init() {
 	register(&Rule{ID: "RX-2", Min: 2, Run: runRX2,
-		Doc: "a regex type becomes a one-line schema made of its own sample and its own pattern: in jschema.(*Schema).AddType, the operands of the formatting call that writes the schema text of a regex type are the results of the type's Example() and Pattern() as they are — not wrapped, anchored, re-quoted or otherwise edited on the way (quoting is the format verb's business) — so that the added type accepts exactly what an inline {regex: P} accepts"})
+		Doc: "a regex type becomes a one-line schema made of its own sample and its own pattern: in jschema.(Schema).AddType, the operands of the formatting call that writes the schema text of a regex type are the results of the type's Example() and Pattern() as they are — not wrapped, anchored, re-quoted or otherwise edited on the way (quoting is the format verb's business) — so that the added type accepts exactly what an inline {regex: P} accepts"})
 }
 
 func runRX2(c *load.Ctx, r *report.RuleResult) {
